@@ -29,8 +29,10 @@ VARIABLE i
 NoFb == <<"none">>
 FollowedOK(c, e) == IF c.fb = NoFb THEN TRUE ELSE ShortestPrefix(c.fb, Sub(c.w, e, Len(c.w))) > 0
 HeaderAt(c, s) == GreedySucceeds(c.re, c.w, s) /\ FollowedOK(c, GreedyEnd(c.re, c.w, s))
-CutByCandidate(c, s) == \E cs \in 0..(s - 1) : \E ce \in (s + 1)..(GreedyEnd(c.re, c.w, s) - 1) :
-                           InL(c.re, Sub(c.w, cs, ce)) /\ ~FollowedOK(c, ce)
+(* the candidate that hides s is, at the outermost level where the cut happens, a greedy match of the whole word *)
+CutByCandidate(c, s) == \E cs \in 0..(s - 1) : LET ce == GreedyEnd(c.re, c.w, cs) IN
+                           /\ GreedySucceeds(c.re, c.w, cs) /\ s < ce /\ ce < GreedyEnd(c.re, c.w, s)
+                           /\ ~FollowedOK(c, ce)
 
 Clause(c) ==
   CASE c.exc # "" -> "NormalReturn"
